@@ -24,6 +24,15 @@ CHECK = {
             "budget_s": {"quick": 100, "thorough": 1500},
         },
         {
+            # the same search with Unlock as a scheduling point of its own (preemption between an
+            # Unlock and the next action of that goroutine), as far as the budget goes
+            "name": "c10-unlockgates", "pkg": CC, "rewrite": [CC], "tiers": ["thorough"],
+            "harness": ["connectconformance/c10_test.go", "connectconformance/fakeproc_test.go", "connectconformance/gateutil_test.go"],
+            "test": "^TestVerifC10$", "gomaxprocs": 1, "env": {"VERIF_GATE_UNLOCK": "1", "VERIF_TIER_OVERRIDE": "quick"},
+            "shards": {"quick": 16, "thorough": 16},
+            "budget_s": {"quick": 120, "thorough": 600},
+        },
+        {
             # cross-check of the state-cache abstraction against the uncached search
             "name": "c10-cachecheck", "pkg": CC, "rewrite": [CC], "tiers": ["thorough"],
             "harness": ["connectconformance/c10_test.go", "connectconformance/fakeproc_test.go", "connectconformance/gateutil_test.go"],
